@@ -53,7 +53,10 @@ where
         loop {
             match self.records.next() {
                 Some(r) => {
-                    if let (Some(start), Some(end)) = (r.alignment_start(), r.alignment_end()) {
+                    // A multi-reference slice also holds records of other reference sequences.
+                    if r.reference_sequence_id() == Some(self.reference_sequence_id)
+                        && let (Some(start), Some(end)) = (r.alignment_start(), r.alignment_end())
+                    {
                         let alignment_interval = (start..=end).into();
 
                         if self.interval.intersects(alignment_interval) {
